@@ -326,6 +326,108 @@ pub fn c12(data: &[u8]) {
     }
 }
 
+// ---------------------------------------------------------------------------------------
+// generator-driven target: the fuzzer's bytes are the random source of the property's own
+// proptest strategy (proptest's `PassThrough` RNG), so libFuzzer's coverage and compare
+// feedback steers the *structured* generator of every property (thorough tier, target `t_gen`)
+// ---------------------------------------------------------------------------------------
+
+use crate::engine::Tier;
+use proptest::strategy::{BoxedStrategy, Strategy, ValueTree};
+use proptest::test_runner::{Config, RngAlgorithm, TestRng, TestRunner};
+
+fn case_from_bytes<P: Prop>(data: &[u8]) -> Option<P::Case>
+where
+    P::Case: 'static,
+{
+    use std::any::Any;
+    use std::cell::RefCell;
+    use std::collections::HashMap;
+    thread_local! {
+        static CACHE: RefCell<HashMap<&'static str, Box<dyn Any>>> = RefCell::new(HashMap::new());
+    }
+    CACHE.with(|c| {
+        let mut c = c.borrow_mut();
+        let s = c.entry(P::ID).or_insert_with(|| Box::new(P::strategy(Tier::Quick)) as Box<dyn Any>);
+        let s = s.downcast_ref::<BoxedStrategy<P::Case>>().expect("strategy type");
+        // The random source is the fuzzer's bytes followed by 4 KiB of a PRNG seeded from them; the
+        // (patched, see vendor/proptest) pass-through RNG starts over when the source is used up, so
+        // generation always terminates and stays a pure function of the input.
+        let mut src = Vec::with_capacity(data.len() + (4 << 10));
+        src.extend_from_slice(data);
+        let mut x = crate::util::fnv64(data) | 1;
+        for _ in 0..(4 << 10) / 8 {
+            x = crate::gen::payload::xorshift(x);
+            src.extend_from_slice(&x.to_le_bytes());
+        }
+        let rng = TestRng::from_seed(RngAlgorithm::PassThrough, &src);
+        let mut runner = TestRunner::new_with_rng(Config { failure_persistence: None, max_local_rejects: 32, ..Config::default() }, rng);
+        // a filter that keeps rejecting (the byte string ran out, so every draw is zero) is not a case
+        s.new_tree(&mut runner).ok().map(|t| t.current())
+    })
+}
+
+fn gen_input<P: Prop>(data: &[u8]) -> Option<P::Input>
+where
+    P::Case: 'static,
+{
+    case_from_bytes::<P>(data).map(|c| P::lower(&c))
+}
+
+fn gen_judge<P: Prop>(data: &[u8])
+where
+    P::Case: 'static,
+{
+    if let Some(i) = gen_input::<P>(data) {
+        judge::<P>(i);
+    }
+}
+
+fn gen_replay<P: Prop>(data: &[u8]) -> Option<String>
+where
+    P::Case: 'static,
+{
+    gen_input::<P>(data).map(|i| P::to_kv(&i).to_text())
+}
+
+macro_rules! dispatch_prop {
+    ($id:expr, $f:ident, $data:expr, $none:expr) => {
+        match $id {
+            "C01" => $f::<c01::C01>($data),
+            "C02" => $f::<c02::C02>($data),
+            "C03" => $f::<c03::C03>($data),
+            "C04" => $f::<c04::C04>($data),
+            "C05" => $f::<c05::C05>($data),
+            "C06" => $f::<c06::C06>($data),
+            "C07" => $f::<c07::C07>($data),
+            "C08" => $f::<c08::C08>($data),
+            "C09" => $f::<c09::C09>($data),
+            "C10" => $f::<c10::C10>($data),
+            "C11" => $f::<c11::C11>($data),
+            "C12" => $f::<c12::C12>($data),
+            "C13" => $f::<c13::C13>($data),
+            "C14" => $f::<c14::C14>($data),
+            "C15" => $f::<c15::C15>($data),
+            "C16" => $f::<c16::C16>($data),
+            "C17" => $f::<c17::C17>($data),
+            "C18" => $f::<c18::C18>($data),
+            _ => $none,
+        }
+    };
+}
+
+/// Entry point of the `t_gen` target; the property is selected by the environment variable VERIF_FUZZ_PROP.
+pub fn gen_entry(data: &[u8]) {
+    static PROP: std::sync::OnceLock<String> = std::sync::OnceLock::new();
+    let id = PROP.get_or_init(|| std::env::var("VERIF_FUZZ_PROP").expect("VERIF_FUZZ_PROP names the property"));
+    dispatch_prop!(id.as_str(), gen_judge, data, panic!("unknown property {}", id))
+}
+
+/// Replay text of the case a `t_gen` input decodes to.
+pub fn to_replay_gen(id: &str, data: &[u8]) -> Option<String> {
+    dispatch_prop!(id, gen_replay, data, None)
+}
+
 /// Decodes a raw libFuzzer input (e.g. a crash / oom / timeout artifact) into the replay text of
 /// the property's case, without evaluating it.
 pub fn to_replay(id: &str, data: &[u8]) -> Option<String> {
@@ -344,5 +446,48 @@ pub fn to_replay(id: &str, data: &[u8]) -> Option<String> {
         "C16" => c16_input(data).map(|i| <c16::C16 as Prop>::to_kv(&i).to_text()),
         "C12" => c12_input(data).map(|i| <c12::C12 as Prop>::to_kv(&i).to_text()),
         _ => None,
+    }
+}
+
+#[cfg(test)]
+mod tests {
+    use super::*;
+
+    fn gen_ok<P: Prop>(data: &[u8]) -> Option<String>
+    where
+        P::Case: 'static,
+    {
+        Some(format!("{}", gen_input::<P>(data).is_some()))
+    }
+
+    /// The generator-driven target must turn any byte string into a case (or drop it) quickly,
+    /// for every property - in particular the empty string and strings far shorter than the case needs.
+    #[test]
+    fn generator_target_decodes_short_inputs_for_every_property() {
+        std::thread::Builder::new()
+            .stack_size(256 << 20)
+            .spawn(|| {
+                let mut inputs: Vec<Vec<u8>> = vec![vec![], vec![0xf5, 0x05, 0xdf, 0x32, 0xbb, 0xc5, 0x3a, 0x64], vec![0xff; 64], vec![0; 64]];
+                let mut x = 0x1234_5678_9abc_def1u64;
+                for n in [16usize, 256, 4096] {
+                    let mut v = Vec::new();
+                    while v.len() < n {
+                        x = crate::gen::payload::xorshift(x);
+                        v.extend_from_slice(&x.to_le_bytes());
+                    }
+                    inputs.push(v);
+                }
+                for id in crate::props::ALL {
+                    for data in &inputs {
+                        let t0 = std::time::Instant::now();
+                        let r: Option<String> = dispatch_prop!(*id, gen_ok, data, None);
+                        assert!(r.is_some());
+                        assert!(t0.elapsed().as_secs() < 20, "{} took too long on a {}-byte input", id, data.len());
+                    }
+                }
+            })
+            .unwrap()
+            .join()
+            .unwrap();
     }
 }
